@@ -151,6 +151,9 @@ def run_check(mod, tier, nproc):
     for entry, n in known:
         print(f'KNOWN-FINDING: property={pid} {entry["what"]} [{n} occurrence(s), branches pruned]')
     rc = 0
+    if os.environ.get('PKMC_DEBUG_SIGS'):
+        for sg, n in Counter(v['sig'] for v in new).most_common():
+            print('SIG', n, sg)
     shown = set()
     idx = 0
     for v in new:
